@@ -112,8 +112,16 @@ func (e *Extractor) RegisterFontsFromResources(resources core.Dict, resolver fun
 		return nil // Font object is not a dictionary
 	}
 
-	// Parse and register each font
-	for name, fontObj := range fonts {
+	// Parse and register each font, in a fixed order: registration also enters the name with a
+	// leading "/", so two resource names can claim the same entry ("F1" and "/F1") and the
+	// order of the map would decide which font a Tf operand selects.
+	names := make([]string, 0, len(fonts))
+	for name := range fonts {
+		names = append(names, name)
+	}
+	sort.Strings(names)
+	for _, name := range names {
+		fontObj := fonts[name]
 		// Resolve font object
 		fontResolved, err := resolveIfRef(fontObj, resolver)
 		if err != nil {
